@@ -167,7 +167,7 @@ pub struct HsParams {
 
 #[derive(Clone, Debug, Default)]
 pub struct HsSeen {
-    pub name: Option<wire::OldName>,
+    pub name: Option<wire::SentName>,
     pub complement: Option<(u32, u32)>,
     pub reply: Option<(u32, [u8; 16])>,
     pub raw: Vec<Vec<u8>>,
@@ -178,15 +178,20 @@ pub async fn accept_handshake(conn: &mut ServerConn, p: &HsParams) -> Result<HsS
     let mut seen = HsSeen::default();
     let name = read_frame2(&mut conn.read).await?;
     seen.raw.push(name.clone());
-    seen.name = Some(wire::parse_old_name(&name)?);
+    let sent = wire::parse_send_name(&name)?;
+    let new_format = sent.new_format;
+    seen.name = Some(sent);
     conn.write.write_all(&wire::frame2(&wire::hs_status("ok"))).await.map_err(|e| e.to_string())?;
     conn.write
         .write_all(&wire::frame2(&wire::hs_challenge(p.peer_flags, p.peer_challenge, p.peer_creation, &p.peer_name)))
         .await
         .map_err(|e| e.to_string())?;
-    let comp = read_frame2(&mut conn.read).await?;
-    seen.raw.push(comp.clone());
-    seen.complement = Some(wire::parse_complement(&comp)?);
+    if !new_format {
+        // an initiator that used the old name layout completes it after the challenge
+        let comp = read_frame2(&mut conn.read).await?;
+        seen.raw.push(comp.clone());
+        seen.complement = Some(wire::parse_complement(&comp)?);
+    }
     let reply = read_frame2(&mut conn.read).await?;
     seen.raw.push(reply.clone());
     let (their_challenge, digest) = wire::parse_reply(&reply)?;
